@@ -2,11 +2,11 @@
 from . import vise, core
 PID = 'C17'
 MC = ['C17_RejectNoEffect']
-TR = ['C17_Refused', 'C17_RefusedOutput', 'C17_AsIfNeverSent']
+TR = ['C17_Refused', 'C17_RefusedFirst', 'C17_RefusedOutput', 'C17_AsIfNeverSent']
 
 
 def run(tier):
-    f = vise.Family(PID, tier, MC, TR, ['nav', 'ends', 'scope'], modes=('L', 'P'), matcher=vise.known_matcher(PID))
+    f = vise.Family(PID, tier, MC, TR, ['nav', 'ends', 'scope', 'first'], modes=('L', 'P'), matcher=vise.known_matcher(PID))
     f.pairs_env = {'VERIF_KEPT_INSERT': '1'}     # histories with refused inputs also through a kept flushing persister
     f.out.assumptions = ['input classes are computed by the harness from the documented pattern ^\\+?[a-zA-Z0-9].*$ and the 255-byte limit, independently of vm.ValidInput',
                          'paired runs use the same external-result schedule (indexed by accepted request and call number)']
